@@ -1,14 +1,27 @@
 import SaModel.Lemmas.C01Comp
 /-
 `small_NoCap`: the head room in closed form.  `used b` is the largest capacity-limited counter of the builder tree
-(last offsets, view-buffer lengths), `keysRoom b` the least number of free dictionary keys; `room b` is exactly
+(last offsets, view-buffer lengths, per-variant row counters of unions), `keysRoom b` the least number of free dictionary keys; `room b` is exactly
 `min (2^31 - 1 - used b) (keysRoom b)`.
 -/
 namespace SaModel.Build
 open SaModel SaModel.Spec
 
+/-- the largest per-variant row counter of a union (`current_offset`) -/
+def curUsed : List Int → Nat
+  | [] => 0
+  | co :: r => max co.toNat (curUsed r)
+
+theorem curRoom_eq : ∀ (cur : List Int), curRoom cur = LIM - curUsed cur
+  | [] => rfl
+  | co :: r => by simp only [curRoom, curUsed, curRoom_eq r]; omega
+
+theorem curUsed_zeros : ∀ (n : Nat), curUsed (List.replicate n 0) = 0
+  | 0 => rfl
+  | n + 1 => by simp only [List.replicate_succ, curUsed, curUsed_zeros n]; rfl
+
 mutual
-/-- the largest counter a capacity check looks at (offsets: bytes / list / map; view buffers) -/
+/-- the largest counter a capacity check looks at (offsets: bytes / list / map; view buffers; union row counters) -/
 def used : B → Nat
   | .bytes _ _ _ offs _ => lastNat offs
   | .bytesView _ _ _ _ buf => buf.length
@@ -17,7 +30,7 @@ def used : B → Nat
   | .map _ _ _ offs ks vs => max (lastNat offs) (max (used ks) (used vs))
   | .struct _ _ _ fs _ _ _ => usedL fs
   | .dictionary _ _ vals _ => used vals
-  | .union _ fs _ _ _ => usedL fs
+  | .union _ fs _ _ cur => max (curUsed cur) (usedL fs)
   | _ => 0
 def usedL : BL → Nat
   | .nil => 0
@@ -52,7 +65,7 @@ theorem room_eq : ∀ (b : B), room b = min (LIM - used b) (keysRoom b)
   | .map _ _ _ _ ks vs => by simp only [room, used, keysRoom, room_eq ks, room_eq vs]; omega
   | .struct _ _ _ fs _ _ _ => by simp only [room, used, keysRoom, roomL_eq fs]
   | .dictionary _ _ vals _ => by simp only [room, used, keysRoom, room_eq vals]; omega
-  | .union _ fs _ _ _ => by simp only [room, used, keysRoom, roomL_eq fs]
+  | .union _ fs _ _ cur => by simp only [room, used, keysRoom, roomL_eq fs, curRoom_eq cur]; omega
 theorem roomL_eq : ∀ (fs : BL), roomL fs = min (LIM - usedL fs) (keysRoomL fs)
   | .nil => by simp [roomL, usedL, keysRoomL]
   | .cons b _ r => by simp only [roomL, usedL, keysRoomL, room_eq b, roomL_eq r]; omega
